@@ -39,6 +39,11 @@ FINDINGS = {
     "C13-removeval-skips-containers": "applyRemoveVal skips every array element that is a map / array parsed from the stored body: on {\"t\":[[1]]}, "
                                       "REMOVE_VAL t <- [1] reports success and removes nothing (the docs: `the first array element whose "
                                       "msgpack-encoded bytes equal Value`); the same value IS removed when it was appended earlier in the same patch",
+    "C13-status-mapping": "classifyPatchError maps a msgpackpatch error class to another PatchFields status than documented "
+                          "(CONDITION_NOT_MET / TYPE_MISMATCH / PATH_INVALID for path and invalid-op / ENCODING_NOT_SUPPORTED)",
+    "C13-spliced-value-opaque": "a map / array value stored by SET / APPEND / PREPEND / MERGE is an opaque leaf for the rest of the same patch: "
+                                "`SET x <- {\"a\":1}; SET x.a <- 2` is rejected with TYPE_MISMATCH, although the same two ops sent as two "
+                                "patches succeed (ops are documented to apply in order to the document)",
     "C13-prealloc-untrusted-count": "parseMap / parseArray / extractTopLevelFields and the msgpack library's generic decoder size an allocation by a "
                                     "declared 32-bit element count before reading a single element: the 5-byte MERGE value df ff ff ff ff makes the "
                                     "process ask for 160 GB and die with `fatal error: runtime: out of memory` (not recoverable)",
@@ -185,9 +190,23 @@ def _canon_nan(t):
     return ("A", [_canon_nan(v) for v in t[1]])
 
 
+class Opaque(Exception):
+    """an op addresses INTO a map / array value that an earlier op of the same patch put there"""
+
+
+SPLICED = set()     # id()s of container values spliced in by the ops of the line being judged
+TOUCHED = [False]   # did the op being evaluated go through / target one of them?
+
+
+def _mark(t):
+    if t[0] in ("M", "A"):
+        SPLICED.add(id(t))
+    return t
+
+
 def _value(v):
     try:
-        return dec_all(v)
+        return _mark(dec_all(v))
     except Malformed:
         raise Skip("op value is not one well-formed value")
 
@@ -239,12 +258,39 @@ def _chain(keys, inner):
 
 
 def ref_op(t, kind, path, val):
+    """documented semantics of one op; raises Opaque when the op SUCCEEDS only because the reference looks
+    into a container value an earlier op of the same patch stored (the code keeps it as an opaque leaf and
+    answers TYPE_MISMATCH); abstains when such an op fails for another reason than a type mismatch"""
+    TOUCHED[0] = False
+    try:
+        res = _ref_op(t, kind, path, val)
+    except RefErr as e:
+        if TOUCHED[0] and str(e) != "type":
+            raise Skip("fails inside a spliced value: which error comes first is not documented")
+        raise
+    if TOUCHED[0]:
+        raise Opaque()
+    return res
+
+
+def _ref_op(t, kind, path, val):
     """documented semantics of one op on the generic tree; returns the new tree"""
     segs = ref_path(path)
+    if kind not in ("set", "del", "inc", "app", "pre", "rmat", "rmval", "merge"):
+        raise RefErr("op")
     if kind in ("set", "inc", "app", "pre", "rmval", "merge") and len(val) == 0:
         raise RefErr("op")
+    # an op whose value is malformed AND whose path / target is wrong: which error is reported is not
+    # documented (the code validates the value first) — the reference abstains
+    if kind in ("set", "app", "pre", "inc"):
+        try:
+            dec_all(val)
+        except Malformed:
+            raise Skip("malformed op value")
     # walk to the parent of the final segment, copying the spine
     def go(node, k):
+        if id(node) in SPLICED:
+            TOUCHED[0] = True
         seg = segs[k]
         last = k == len(segs) - 1
         if seg[0] == "f":
@@ -295,9 +341,14 @@ def ref_op(t, kind, path, val):
         if dc is None:
             raise RefErr("type")
     if kind == "merge":
-        mv = _value(val)
-        if mv[0] != "M":
+        if not (0x80 <= val[0] <= 0x8f or val[0] in (0xde, 0xdf)):
             raise RefErr("type")
+        try:
+            mv = dec_all(val)
+        except Malformed:
+            raise Skip("MERGE value is not one well-formed map")
+        for _, fv in mv[1]:
+            _mark(fv)
     root, hit = go(t, 0)
 
     def handler(node, hit):
@@ -380,6 +431,8 @@ def ref_op(t, kind, path, val):
         elif kind == "rmval":
             if hit[0] == "target":
                 tgt = get(hit[1])
+                if id(tgt) in SPLICED:
+                    TOUCHED[0] = True
                 if tgt[0] != "A":
                     raise RefErr("type")
                 # "the first array element whose msgpack-encoded bytes equal Value": scalars by their exact
@@ -406,6 +459,8 @@ def ref_op(t, kind, path, val):
                 return ("M", fs)
             if hit[0] == "target":
                 tgt = get(hit[1])
+                if id(tgt) in SPLICED:
+                    TOUCHED[0] = True
                 if tgt[0] != "M":
                     raise RefErr("type")
                 put(hit[1], merged(tgt[1]))
@@ -634,11 +689,12 @@ def oracle_line(op, rep):
                 fid = "C13-unvalidated-op-value" if value_malformed(ops) else None
                 return (fid, "reported success with wf=1, but the reference decoder rejects the output body %s (%s)" % (f[1], e))
             # success ⇒ the output decodes to what the documented semantics give
+            SPLICED.clear()
             try:
                 t = dec_all(body)
                 for k, p, v in ops:
                     t = ref_op(t, k, unhex(p), unhex(v))
-            except Skip:
+            except (Skip, Opaque):
                 return None
             except RefErr as e:
                 fid = "C13-removeval-skips-containers" if rmval_container(ops) else None
@@ -657,33 +713,151 @@ def oracle_line(op, rep):
                     d[0].lstrip("."), d[1][1].hex() if d[1][0] in ("L", "K") else d[1], d[2][1].hex() if d[2][0] in ("L", "K") else d[2]) if d else ""
                 fid = "C13-removeval-skips-containers" if rmval_container(ops) else None
                 return (fid, "output %s does not decode to the document the documented semantics give%s" % (f[1], where))
-        elif rep == "err cond" and cond is not None:
-            # failure with CONDITION_NOT_MET ⇒ the reference agrees that it is not met
-            try:
-                met = ref_cond(dec_all(body), cond)
-            except Malformed:
-                met = None
-            if met is True:
-                return (None, "condition %s IS met by the document (exact integer / IEEE comparison), but the patch was rejected as "
-                        "CONDITION_NOT_MET" % ":".join(cond))
+        elif rep.startswith("err "):
+            return judge_error(body, cond, ops, GROUP.get(rep[4:]), "the patch was rejected with `%s`" % rep)
         return None
     if op.startswith("pf "):
-        f = op.split(" ")
-        m = re.match(r"st=(\d+) (\S+) wf=(\d) new=(\S+)$", rep)
-        if not m:
-            return (None, "PatchFields reply `%s`" % rep)
-        st, stored, wf, new = int(m.group(1)), m.group(2), m.group(3), m.group(4)
-        if st in (0, 1):
-            if not stored.startswith("b:c700") or stored[6:] != new:
-                return (None, "PatchFields success but stored %s / echoed %s" % (stored, new))
-            if wf != "1":
-                ops = [tuple(x.split(":")) for x in f[5:]]
-                fid = "C13-unvalidated-op-value" if value_malformed(ops) else None
-                return (fid, "PatchFields reported success, stored body does not parse")
-        else:
-            if stored != f[1] or new != "-":
-                return (None, "PatchFields status %d but the stored content changed: %s → %s" % (st, f[1], stored))
+        return judge_pf(op, rep)
+    return None
+
+
+# status groups of the documented mapping (hydraide.proto PatchResult + classifyPatchError)
+GROUP = {"cond": 3, "type": 5, "path": 6, "op": 6, "msgpack": 7, "nonstr": 7}
+STATUS_NAME = {0: "PATCHED", 1: "CREATED", 2: "KEY_NOT_FOUND", 3: "CONDITION_NOT_MET", 5: "TYPE_MISMATCH", 6: "PATH_INVALID",
+               7: "ENCODING_NOT_SUPPORTED", 8: "INTERNAL_ERROR"}
+
+
+def ref_outcome(body, cond, ops):
+    """documented outcome of a patch on a body: ("ok", tree) | ("err", status group) | None (no opinion).
+    Raises Opaque when an op addresses into a container spliced in earlier in the same patch."""
+    SPLICED.clear()
+    try:
+        t = dec_all(body)
+    except Malformed:
+        return ("err", 7)
+    if cond is not None:
+        met = ref_cond(t, cond)
+        if met is None:
+            return None
+        if met is False:
+            return ("err", 3)
+    try:
+        for k, p, v in ops:
+            t = ref_op(t, k, unhex(p), unhex(v))
+    except Skip:
         return None
+    except RefErr as e:
+        return ("err", {"type": 5, "path": 6, "op": 6}[str(e)])
+    return ("ok", t)
+
+
+def judge_error(body, cond, ops, got_status, what):
+    """the implementation failed with a status of group `got_status`: does the documentation agree?"""
+    if got_status is None:
+        return (None, "unknown error class: " + what)
+    try:
+        exp = ref_outcome(body, cond, ops)
+    except Opaque:
+        if got_status == 5:
+            return ("C13-spliced-value-opaque", "a later op addresses into a map / array value that an earlier op of the same patch "
+                    "stored, and %s (the same ops as two patches succeed)" % what)
+        return None
+    if exp is None:
+        return None
+    if exp[0] == "ok":
+        fid = "C13-removeval-skips-containers" if rmval_container(ops) else None
+        return (fid, "the documented semantics apply the op list, but " + what)
+    if exp[1] != got_status:
+        if exp[1] == 3:
+            return (None, "the condition is NOT met by the document (CONDITION_NOT_MET expected), but " + what)
+        if got_status == 3:
+            return (None, "condition %s IS met by the document (exact integer / IEEE comparison), but the patch was rejected as "
+                    "CONDITION_NOT_MET" % ":".join(cond or ()))
+        return (None, "the documented outcome is %s, but %s" % (STATUS_NAME.get(exp[1], exp[1]), what))
+    return None
+
+
+def judge_pf(op, rep):
+    """PatchFields end-to-end: status, stored body, echoed body and meta against the documentation"""
+    f = op.split(" ")
+    m = re.match(r"st=(\d+) (\S+) wf=(\d) new=(\S+) exp=(-?\d+) mat=(\d) mby=(\S+) cat=(\d) cby=(\S+)$", rep)
+    if not m or len(f) < 6:
+        return (None, "PatchFields reply `%s`" % rep)
+    st, stored, wf, new = int(m.group(1)), m.group(2), m.group(3), m.group(4)
+    exp, mat, mby, cat, cby = int(m.group(5)), m.group(6), m.group(7), m.group(8), m.group(9)
+    before, exp0 = f[1], 0
+    if "@" in before:
+        before, e0 = before.split("@")
+        exp0 = int(e0)
+    create, seed, meta = f[2] == "1", unhex(f[3]), f[4]
+    cond = None if f[5] == "-" else tuple(f[5].split(":"))
+    ops = [tuple(x.split(":")) for x in f[6:]]
+    mt = {} if meta == "-" else dict((t.split("=") + [""])[:2] for t in meta.split(","))
+    # ---- what the documentation promises
+    if st in (0, 1):
+        if not stored.startswith("b:c700") or stored[6:] != new:
+            return (None, "PatchFields success but stored %s / echoed %s" % (stored, new))
+        if wf != "1":
+            fid = "C13-unvalidated-op-value" if value_malformed(ops) else None
+            return (fid, "PatchFields reported success, stored body does not parse")
+        # meta: stamped on success; Created* only on create; ClearExpiredAt over SetExpiredAt
+        want_exp = 0 if "clr" in mt else (int(mt["exp"]) if "exp" in mt else exp0)
+        want = (want_exp, "1" if "ua" in mt else "0", mt.get("ub") or "-",
+                "1" if (st == 1 and "ca" in mt) else "0", (mt.get("cb") or "-") if st == 1 else "-")
+        if (exp, mat, mby, cat, cby) != want:
+            return (None, "PatchFields meta after %s: got exp=%d mat=%s mby=%s cat=%s cby=%s, documented %s" %
+                    (STATUS_NAME[st], exp, mat, mby, cat, cby, want))
+    else:
+        if stored != before or new != "-" or exp != exp0 or (mat, mby, cat, cby) != ("0", "-", "0", "-"):
+            return (None, "PatchFields status %d but the treasure changed: %s → %s (exp %d → %d)" % (st, f[1], stored, exp0, exp))
+    # ---- expected status
+    if before == "absent" and not create:
+        want_st, body = 2, None
+    else:
+        sd = seed if seed else b"\x80"
+        seed_ok = True
+        try:
+            dec_all(sd)
+        except Malformed:
+            seed_ok = False
+        if create and not seed_ok:
+            want_st, body = 5, None
+        elif before == "absent":
+            if sd[0] not in range(0x80, 0x90) and sd[0] not in (0xde, 0xdf):
+                return None          # non-map seed: documented TYPE_MISMATCH, the code only fails once an op touches it
+            want_st, body = None, sd
+        elif before == "other":
+            want_st, body = 5, None
+        else:
+            raw = unhex(before[2:])
+            if len(raw) < 2 or raw[:2] != b"\xc7\x00":
+                want_st, body = 7, None
+            else:
+                want_st, body = None, raw[2:]
+    if body is not None:
+        try:
+            out = ref_outcome(body, cond, ops)
+        except Opaque:
+            return ("C13-spliced-value-opaque", "PatchFields: a later op addresses into a value stored earlier in the same patch") \
+                if st == 5 else None
+        if out is None:
+            return None
+        if out[0] == "err":
+            want_st = out[1]
+        else:
+            want_st = 1 if before == "absent" else 0
+            if st == want_st:
+                try:
+                    if dec_all(unhex(new)) != out[1]:
+                        return (None, "PatchFields stored %s, which is not the document the documented semantics give" % new)
+                except Malformed:
+                    return (None, "PatchFields stored a body the reference decoder rejects: %s" % new)
+    if st != want_st:
+        fid = "C13-removeval-skips-containers" if rmval_container(ops) and st in (0, 1) else None
+        if body is not None and st not in (0, 1) and want_st not in (0, 1, None):
+            fid = "C13-status-mapping"      # an op / condition error reported under another status
+        return (fid, "PatchFields replied %s (%d), the documented status is %s (%d)" %
+                (STATUS_NAME.get(st, "?"), st, STATUS_NAME.get(want_st, "?"), want_st))
     return None
 
 
@@ -733,7 +907,9 @@ def run(ctx):
         magic = "%02x%02x" % (int(facts.get("magic0", "0") or 0), int(facts.get("magic1", "0") or 0)) \
             if facts.get("magic0", "unknown") != "unknown" and facts.get("magic1", "unknown") != "unknown" else "unknown"
         args = ["validatesValues=" + facts.get("validatesValues", "unknown"), "nanCompare=" + facts.get("nanCompare", "unknown"),
-                "magic=" + magic, "removeValCompare=" + facts.get("removeValCompare", "unknown")]
+                "magic=" + magic, "removeValCompare=" + facts.get("removeValCompare", "unknown"),
+                "smap=" + ",".join(facts.get(k, "x") for k in ("stCond", "stType", "stPath", "stOp", "stMsgpack", "stNonstr")),
+                "seedDefault=%02x" % int(facts.get("seedDefault", "0") if facts.get("seedDefault", "unknown") != "unknown" else 0)]
         c = K.correspondence(ctx, "C13", args, hx_env={"HYDRAIDE_LOG_LEVEL": "error"})
         corrs.append(("C13", args, c))
     else:
@@ -773,10 +949,11 @@ def run(ctx):
             rep = K.case_replay(c, [i])
             rep.update({"correspondence": "C13", "finding": fid})
             ctx.violation("finding %s seen by the Spec oracle on the implementation's replies" % fid, rep, tag=fid)
-    # model flags that the oracle does not see (machinery drift)
+    # a finding the model flags but the oracle never sees in this run (machinery drift); on a single line the
+    # oracle may abstain (the reference has no opinion there), so only a finding with no oracle hit at all counts
     for i, fl in enumerate(c.flags):
         for fid in fl:
-            if i not in mism and i not in oracle_hits.get(fid, []):
+            if i not in mism and not oracle_hits.get(fid):
                 rep = K.case_replay(c, [i])
                 rep.update({"correspondence": "C13", "finding": fid})
                 ctx.violation("model flags %s but the Spec oracle sees nothing wrong in the implementation's reply" % fid, rep,
